@@ -45,4 +45,51 @@
 	((n) >= 32u * ((w) + 1) ? (unsigned int)(a)[w] : (n) <= 32u * (w) ? 0u : SPEC_TOP32((a)[w], (n) - 32u * (w)))
 #define SPEC_BIT128(a, k) SPEC_BIT32((a)[(k) / 32], (k) % 32)
 
+/* ---------------------------------------------------------------- RFC 6810 / RFC 8210 section 5: PDUs */
+#define SPEC_PDU_SERIAL_NOTIFY 0
+#define SPEC_PDU_SERIAL_QUERY 1
+#define SPEC_PDU_RESET_QUERY 2
+#define SPEC_PDU_CACHE_RESPONSE 3
+#define SPEC_PDU_IPV4 4
+#define SPEC_PDU_IPV6 6
+#define SPEC_PDU_EOD 7
+#define SPEC_PDU_CACHE_RESET 8
+#define SPEC_PDU_ROUTER_KEY 9
+#define SPEC_PDU_ERROR 10
+#define SPEC_MAX_PDU_LEN 3248u
+#define SPEC_ERR_CORRUPT_DATA 0
+#define SPEC_ERR_INTERNAL 1
+#define SPEC_ERR_NO_DATA 2
+#define SPEC_ERR_INVALID_REQUEST 3
+#define SPEC_ERR_UNSUPPORTED_VERSION 4
+#define SPEC_ERR_UNSUPPORTED_PDU_TYPE 5
+#define SPEC_ERR_WITHDRAWAL_UNKNOWN 6
+#define SPEC_ERR_DUPLICATE 7
+#define SPEC_ERR_UNEXPECTED_VERSION 8
+/* big-endian fields of a raw PDU held in a byte array b */
+#define RAW_U8(b, o) ((unsigned int)(unsigned char)(b)[o])
+#define RAW_U16(b, o) ((RAW_U8(b, o) << 8) | RAW_U8(b, (o) + 1))
+#define RAW_U32(b, o) ((RAW_U8(b, o) << 24) | (RAW_U8(b, (o) + 1) << 16) | (RAW_U8(b, (o) + 2) << 8) | RAW_U8(b, (o) + 3))
+#define RAW_VER(b) RAW_U8(b, 0)
+#define RAW_TYPE(b) RAW_U8(b, 1)
+#define RAW_LEN(b) RAW_U32(b, 4)
+/* exact length of every PDU type (Error Report: nested lengths consistent, in 64-bit arithmetic) */
+#define SPEC_ERR_ENC_LEN(b) RAW_U32(b, 8)
+#define SPEC_ERR_TXT_LEN(b) RAW_U32(b, (12 + SPEC_ERR_ENC_LEN(b)) <= SPEC_MAX_PDU_LEN - 4 ? 12 + SPEC_ERR_ENC_LEN(b) : 0)
+#define SPEC_ERR_LEN_OK(b, len)                                                                        \
+	((len) >= 16 && 16ull + SPEC_ERR_ENC_LEN(b) <= (len) &&                                         \
+	 16ull + SPEC_ERR_ENC_LEN(b) + SPEC_ERR_TXT_LEN(b) == (len))
+#define SPEC_PDU_LEN_OK(b, len)                                                                        \
+	(RAW_TYPE(b) == SPEC_PDU_SERIAL_NOTIFY    ? (len) == 12                                        \
+	 : RAW_TYPE(b) == SPEC_PDU_SERIAL_QUERY   ? (len) == 12                                        \
+	 : RAW_TYPE(b) == SPEC_PDU_RESET_QUERY    ? (len) == 8                                         \
+	 : RAW_TYPE(b) == SPEC_PDU_CACHE_RESPONSE ? (len) == 8                                         \
+	 : RAW_TYPE(b) == SPEC_PDU_IPV4           ? (len) == 20                                        \
+	 : RAW_TYPE(b) == SPEC_PDU_IPV6           ? (len) == 32                                        \
+	 : RAW_TYPE(b) == SPEC_PDU_EOD            ? ((RAW_VER(b) == 0 && (len) == 12) || (RAW_VER(b) == 1 && (len) == 24)) \
+	 : RAW_TYPE(b) == SPEC_PDU_CACHE_RESET    ? (len) == 8                                         \
+	 : RAW_TYPE(b) == SPEC_PDU_ROUTER_KEY     ? (len) == 123                                       \
+	 : RAW_TYPE(b) == SPEC_PDU_ERROR          ? SPEC_ERR_LEN_OK(b, len)                            \
+						  : 0)
+
 #endif
